@@ -1,5 +1,6 @@
 (* C20 — a terminal abort always surfaces as an error identifying its result code.  Statements only. *)
 From Zvt Require Import Base Length Cp437 Encoding Codec Lookup Client ClientProps SpecCheck.
+From Zvt Require Import ClientLog.
 From Zvt.gen Require Tables.
 From Zvt.spec Require Spec.
 Open Scope N_scope.
@@ -62,6 +63,15 @@ Theorem C20_cancel_abort_anywhere : forall c ixc ixa rest its tail, ixa <> ixc -
   run_handler (h_until_completion ixc ixa) (fun _ => RErr EIncomplete) tt (its ++ (ixa, VRec (VInt c :: rest)) :: tail) = RErr (EAborted c).
 Proof. exact abort_until_completion_anywhere. Qed.
 
+(* LIFTING to the public calls: when the exchange on the current connection goes through (every poll hands over an item in time, the
+   last one final: polls_ok), the call's result is the handler folded over EXACTLY the items received — nothing skipped, retried or
+   duplicated; with the theorems above: an abort among them, at any position, is the call's error *)
+Theorem C20_call_result_is_fold_over_received_items : forall (A B : Type) cfg (h : A -> N -> value -> option (cres B) * A) fin q T id its fuel w acc,
+  w_cur w = Some id -> polls_ok q T id PStart w its -> (length its < fuel)%nat ->
+  fst (consume fuel cfg (start_retry q T) w acc h fin) = run_handler h fin acc its.
+Proof. exact @call_follows_polls. Qed.
+
+Print Assumptions C20_call_result_is_fold_over_received_items.
 Print Assumptions C20_abort_at_any_position.
 Print Assumptions C20_begin_abort_anywhere.
 Print Assumptions C20_read_card_abort_anywhere.
